@@ -164,6 +164,9 @@ pub struct Config {
     /// after an error, call write() again and record what happens
     #[serde(default)]
     pub probe_after_error: bool,
+    /// do not call end() (used to sample output latency of a prefix)
+    #[serde(default)]
+    pub skip_end: bool,
 }
 
 impl Default for Config {
@@ -187,6 +190,7 @@ impl Default for Config {
             post_read: false,
             probe_attrs: false,
             probe_after_error: false,
+            skip_end: false,
         }
     }
 }
@@ -574,19 +578,36 @@ macro_rules! impl_engine {
             }
 
             fn text_handler(sh: Sh, hid: usize, always: Vec<Op>) -> impl FnMut(&mut TextChunk<'_>) -> HResult + Send + 'static {
+                // start offset of the text node whose chunks are being delivered (None between nodes)
+                let mut node_start: Option<usize> = None;
                 move |t: &mut TextChunk<'_>| -> HResult {
                     let (start, end) = loc(t.source_location());
+                    let first = node_start.is_none();
+                    let ns = *node_start.get_or_insert(start);
+                    let last = t.last_in_text_node();
+                    if last {
+                        node_start = None;
+                    }
                     let (fail, ops) = {
                         let mut s = lock(&sh);
                         let fail = s.tick();
-                        s.log.push(Rec::Text { hid, start, end, text: t.as_str().to_string(), tt: format!("{:?}", t.text_type()), last: t.last_in_text_node(), failed: fail });
-                        (fail, s.ops_for(hid, Sub::Text, start, &always))
+                        s.log.push(Rec::Text { hid, start, end, text: t.as_str().to_string(), tt: format!("{:?}", t.text_type()), last, failed: fail });
+                        (fail, s.ops_for(hid, Sub::Text, ns, &always))
                     };
                     if fail {
                         return injected();
                     }
+                    // fragmentation-independent text edits: Before on the first chunk of the node, After on
+                    // the last one, Replace = replace the first chunk and remove the others, Remove on all
                     for op in &ops {
-                        let _ = content_ops!(t, op, hid, Sub::Text, start);
+                        match op {
+                            Op::Before(_) if !first => {}
+                            Op::After(_) if !last => {}
+                            Op::Replace(_) if !first => t.remove(),
+                            _ => {
+                                let _ = content_ops!(t, op, hid, Sub::Text, ns);
+                            }
+                        }
                     }
                     Ok(())
                 }
@@ -719,6 +740,23 @@ macro_rules! impl_engine {
                 Ok(st)
             }
 
+            /// `rewrite_str` with the same handlers; returns (result, handler/sink log)
+            pub fn run_str(cfg: &Config, input: &str) -> Result<(Result<String, ErrKind>, RunResult), String> {
+                let sh = new_shared(cfg);
+                let st = build(cfg, &sh)?;
+                let _ = lol_html::verif::take_events();
+                let r = catch_unwind(AssertUnwindSafe(|| lol_html::rewrite_str(input, st)));
+                let hook = lol_html::verif::take_events();
+                let log = std::mem::take(&mut lock(&sh).log);
+                let invocations = lock(&sh).invocations;
+                let rr = RunResult { log, hook, written: input.len(), invocations };
+                match r {
+                    Ok(Ok(s)) => Ok((Ok(s), rr)),
+                    Ok(Err(e)) => Ok((Err(err_kind(&e)), rr)),
+                    Err(p) => Ok((Err(ErrKind::Handler(format!("PANIC: {}", panic_msg(&p)))), rr)),
+                }
+            }
+
             pub fn run(cfg: &Config, input: &[u8], cuts: &[usize]) -> Result<RunResult, String> {
                 let sh = new_shared(cfg);
                 let st = build(cfg, &sh)?;
@@ -760,6 +798,8 @@ macro_rules! drive {
                 lock(&$sh).log.push(Rec::Probe { panicked: r.is_err() });
             }
             // dropping a poisoned rewriter must be fine
+            let _ = catch_unwind(AssertUnwindSafe(move || drop($rw)));
+        } else if $cfg.skip_end {
             let _ = catch_unwind(AssertUnwindSafe(move || drop($rw)));
         } else {
             lock(&$sh).log.push(Rec::CallEnd);
@@ -883,6 +923,14 @@ impl RunResult {
             .iter()
             .filter(|e| matches!(e, lol_html::verif::Event::SwitchToLexer | lol_html::verif::Event::SwitchToTagScanner))
             .count()
+    }
+}
+
+pub fn run_str(cfg: &Config, input: &str) -> Result<(Result<String, ErrKind>, RunResult), String> {
+    if cfg.send {
+        send::run_str(cfg, input)
+    } else {
+        local::run_str(cfg, input)
     }
 }
 
